@@ -95,29 +95,35 @@ template<class Range, class Body, class Partitioner>
 void parallel_for(const Range &r, const Body &body, const Partitioner &) { parallel_for(r, body); }
 
 namespace shim_detail {
-template<class Range, class Value, class RealBody, class Reduction>
-Value reduce_rec(const Range &r, const Value &init, const Value &identity, const RealBody &body, const Reduction &red, std::string &lg) {
+template<class Range, class Value, class RealBody, class Reduction, class Base>
+Value reduce_rec(const Range &r, const Value &init, const Value &identity, const RealBody &body, const Reduction &red, std::string &lg, const Base &base) {
     std::size_t n = r.size();
     int mode = tbbshim::ctl().mode;
     bool leaf = n <= 1 || mode == 1 || (mode == 0 && tbbshim::rnd() % 3 == 0);
-    if (leaf) { tbbshim::ctl().leaves++; lg += "L"; return body(r, init); }
+    if (leaf) {
+        // leaves are logged with their sub-range (offsets into the reduced range), so that the whole execution is a term of
+        // Model/Sched.lean's `Sched`: L a:b | S(l,r) | F(l,r)
+        tbbshim::ctl().leaves++;
+        lg += "L" + std::to_string((std::size_t) (r.begin() - base)) + ":" + std::to_string((std::size_t) (r.end() - base));
+        return body(r, init);
+    }
     std::size_t cut = mode == 2 ? n / 2 : 1 + (std::size_t) (tbbshim::rnd() % (n - 1));
     Range left(r.begin(), r.begin() + cut), right(r.begin() + cut, r.end());
     if (tbbshim::rnd() % 2 == 0) {      // same body continues
         tbbshim::ctl().seqs++; lg += "S(";
-        Value v = reduce_rec(left, init, identity, body, red, lg); lg += ",";
-        Value w = reduce_rec(right, v, identity, body, red, lg); lg += ")";
+        Value v = reduce_rec(left, init, identity, body, red, lg, base); lg += ",";
+        Value w = reduce_rec(right, v, identity, body, red, lg, base); lg += ")";
         return w;
     }
     tbbshim::ctl().forks++; lg += "F(";
     if (tbbshim::rnd() % 2 == 0) {
-        Value vl = reduce_rec(left, init, identity, body, red, lg); lg += ",";
-        Value vr = reduce_rec(right, identity, identity, body, red, lg); lg += ")";
+        Value vl = reduce_rec(left, init, identity, body, red, lg, base); lg += ",";
+        Value vr = reduce_rec(right, identity, identity, body, red, lg, base); lg += ")";
         return red(vl, vr);
     } else {                              // the right half happens to finish first
         std::string lr;
-        Value vr = reduce_rec(right, identity, identity, body, red, lr);
-        Value vl = reduce_rec(left, init, identity, body, red, lg); lg += "," + lr + ")";
+        Value vr = reduce_rec(right, identity, identity, body, red, lr, base);
+        Value vl = reduce_rec(left, init, identity, body, red, lg, base); lg += "," + lr + ")";
         return red(vl, vr);
     }
 }
@@ -126,7 +132,7 @@ Value reduce_rec(const Range &r, const Value &init, const Value &identity, const
 template<class Range, class Value, class RealBody, class Reduction>
 Value parallel_reduce(const Range &r, const Value &identity, const RealBody &body, const Reduction &red) {
     std::string lg = "reduce " + std::to_string(r.size()) + " ";
-    Value v = shim_detail::reduce_rec(r, identity, identity, body, red, lg);
+    Value v = shim_detail::reduce_rec(r, identity, identity, body, red, lg, r.begin());
     tbbshim::ctl().regions++;
     tbbshim::ctl().log.push_back(lg);
     return v;
